@@ -962,7 +962,19 @@ pub fn execute(plan: &C10Plan) -> Outcome<C10Plan> {
             }
             a.sort();
             b.sort();
-            if sh.flush_sent && a != b && viol.is_none() {
+            // The window is specified in milliseconds, the stamps are finer: an
+            // arrival that falls in the very millisecond in which a window ends
+            // closes it under the millisecond reading (what the code does today)
+            // and may not under the real-valued reading. Both groupings are
+            // accepted.
+            let b_fine: Vec<Vec<u32>> = {
+                let arr: Vec<(u32, usize, u64)> = arrivals.iter().map(|id| (*id, by_id[id].frame as usize % frames.len(), by_id[id].ts_us)).collect();
+                let (closed, still_open) = reference_model(&arr, w * 1000);
+                let mut v: Vec<Vec<u32>> = closed.into_iter().chain(still_open.into_iter()).filter(|g| decodable[by_id[&g[0]].frame as usize % frames.len()]).collect();
+                v.sort();
+                v
+            };
+            if sh.flush_sent && a != b && a != b_fine && viol.is_none() {
                 let extra = a.iter().find(|g| !b.contains(g)).cloned().unwrap_or_default();
                 let want = b.iter().find(|g| g.first() == extra.first()).cloned().unwrap_or_default();
                 viol = Some(Violation::new(
@@ -1440,7 +1452,15 @@ pub fn execute_decode1090(plan: &C10Plan) -> Outcome<C10Plan> {
             .collect();
         want.sort();
         got.sort();
-        if want != got {
+        // (the millisecond reading and the real-valued reading of the window are both accepted)
+        let want_fine: Vec<Vec<u32>> = {
+            let arr: Vec<(u32, usize, u64)> = plan.receptions.iter().map(|r| (r.id, r.frame as usize % frames.len(), r.ts_us)).collect();
+            let (closed, open) = reference_model(&arr, w * 1000);
+            let mut v: Vec<Vec<u32>> = closed.into_iter().chain(open.into_iter()).filter(|g| decodable[by_id[&g[0]].frame as usize % frames.len()]).collect();
+            v.sort();
+            v
+        };
+        if want != got && want_fine != got {
             let extra = got.iter().find(|g| !want.contains(g)).cloned().unwrap_or_default();
             let expect = want.iter().find(|g| g.first() == extra.first()).cloned().unwrap_or_default();
             set(Violation::new(
